@@ -1566,6 +1566,7 @@ package grpctunnel
 //@     assert[C12] @ready bound(arg1, "ready", s.reverse)
 //@   at store waitForReady#1
 //@     assert[C12] @wait bound(arg1, "waitForReady", s.reverse)
+//@   ensures[C12] @wired count("store:pick") == 1 && count("store:ready") == 1 && count("store:waitForReady") == 1
 //@   assigns nothing
 
 //@ func (*TunnelServiceHandler).KeyAsChannel
@@ -1576,6 +1577,7 @@ package grpctunnel
 //@     assert[C12] @ready isClosure(arg1, "KeyAsChannel$2")
 //@   at store waitForReady#1
 //@     assert[C12] @wait isClosure(arg1, "KeyAsChannel$3")
+//@   ensures[C12] @keyedonly count("call:AsChannel") == 0 && count("store:pick") == 1 && count("store:ready") == 1 && count("store:waitForReady") == 1
 //@   assigns nothing
 
 //@ func (*TunnelServiceHandler).AllReverseTunnels
